@@ -15,7 +15,8 @@ const P: &str = "C05";
 const POS: [f64; 9] = [0.0009765625, 0.25, 0.5, 1.0, 2.0, 8.0, 1000.0, 3.7, 1e-3];
 
 fn close<F: Fl>(a: f64, b: f64, ulps: f64, scale: f64) -> bool {
-    a == b || (a - b).abs() <= ulps * F::U * a.abs().max(b.abs()) * scale
+    // (an infinite value is only close to itself)
+    a == b || (a.is_finite() && b.is_finite() && (a - b).abs() <= ulps * F::U * a.abs().max(b.abs()) * scale)
 }
 
 fn judge_sample<F: Fl>(xv: &[f64], confs: &[(Kind, f64)], s: &mut Sink) {
@@ -76,8 +77,11 @@ fn judge_sample<F: Fl>(xv: &[f64], confs: &[(Kind, f64)], s: &mut Sink) {
                     let (wk, wl, wh) = shape(wi);
                     s.outcome(&(F::NAME, "geo", kind));
                     // exp applied in the float type (underflow / overflow included)
+                    // a missing side stays missing; a present bound is exp of the log-space bound
+                    let side = |g: f64, w: f64, missing: f64| if w == missing { g == missing } else { close::<F>(g, F::of(w).exp().f(), 8.0, 1.0 + w.abs().min(1e300)) };
                     let (el, eh) = (F::of(wl).exp().f(), F::of(wh).exp().f());
-                    let ok = gk == wk && gk == kind && close::<F>(gl, el, 8.0, 1.0 + wl.abs().min(1e300)) && close::<F>(gh, eh, 8.0, 1.0 + wh.abs().min(1e300));
+                    let _ = (el, eh);
+                    let ok = gk == wk && gk == kind && side(gl, wl, f64::NEG_INFINITY) && side(gh, wh, f64::INFINITY);
                     if !ok {
                         s.violation(format!("geometric/not-exp-of-log-interval/{}", kind.name()), format!("{name}<{}>({c:?}, {xv:?}) = {gi:?}; exp of the arithmetic interval of the logs {wi:?} = [{:?}, {:?}]", F::NAME, wl.exp(), wh.exp()), case());
                     }
@@ -128,7 +132,9 @@ fn judge_sample<F: Fl>(xv: &[f64], confs: &[(Kind, f64)], s: &mut Sink) {
 
 // ---------------- state preservation: explicit-state search ---------------------------
 
-const GOOD: [f64; 3] = [0.5, 2.0, 3.7];
+/// strictly positive values; 1e-40 is subnormal in f32 and 1e-310 in f64 (used for the
+/// f64 registers only): "strictly positive" includes them
+const GOOD: [f64; 4] = [0.5, 2.0, 3.7, 1e-40];
 const BAD: [f64; 6] = [0.0, -0.0, -1.0, f64::NEG_INFINITY, -5e-324, -1e300];
 
 #[derive(Clone, Debug, PartialEq, serde::Serialize, serde::Deserialize)]
@@ -214,6 +220,10 @@ fn all_actions() -> Vec<Act> {
     for b in BAD {
         v.push(Act::Append(b));
     }
+    // (becomes 0 in f32, where it is legitimately rejected: `is_bad` is evaluated on the
+    // value in the register's float type)
+    v.push(Act::Append(1e-310));
+    v.push(Act::Extend(vec![2.0, 1e-310]));
     v.push(Act::Extend(vec![]));
     for len in 1..=3usize {
         // chunks of good values
@@ -243,8 +253,12 @@ struct St<R: Reg> {
     model: Vec<f64>,
 }
 
-fn is_bad(x: f64) -> bool {
-    x <= 0.0
+fn is_bad_in<R: Reg>(x: f64) -> bool {
+    if R::NAME.ends_with("f32>") {
+        (x as f32) <= 0.0
+    } else {
+        x <= 0.0
+    }
 }
 
 fn step<R: Reg>(st: &St<R>, act: &Act, s: &mut Sink) -> Option<St<R>> {
@@ -257,7 +271,7 @@ fn step<R: Reg>(st: &St<R>, act: &Act, s: &mut Sink) -> Option<St<R>> {
     match act {
         Act::Append(x) => {
             let r = reg.append(*x);
-            if is_bad(*x) {
+            if is_bad_in::<R>(*x) {
                 s.outcome(&(R::NAME, "append-bad", r.is_ok()));
                 match r {
                     Err(CIError::NonPositiveValue(v)) => {
@@ -270,7 +284,8 @@ fn step<R: Reg>(st: &St<R>, act: &Act, s: &mut Sink) -> Option<St<R>> {
                     other => s.violation(format!("{}/non-positive-value-not-rejected", R::NAME), format!("append({x:?}) after {:?} = {other:?}", st.model), case()),
                 }
                 let after = format!("{:?}", reg);
-                if after != before || reg != st.reg {
+                // (== is meaningless once a NaN sits in the register: NaN != NaN)
+                if after != before || (!before.contains("NaN") && reg != st.reg) {
                     s.violation(format!("{}/state-changed-by-rejected-append", R::NAME), format!("append({x:?}): {before} -> {after}"), case());
                 }
                 return Some(St { reg, model });
@@ -285,7 +300,7 @@ fn step<R: Reg>(st: &St<R>, act: &Act, s: &mut Sink) -> Option<St<R>> {
         }
         Act::Extend(chunk) => {
             let r = reg.extend(chunk);
-            let bad_pos = chunk.iter().position(|x| is_bad(*x));
+            let bad_pos = chunk.iter().position(|x| is_bad_in::<R>(*x));
             s.outcome(&(R::NAME, "extend", bad_pos, r.is_ok()));
             // expected state: exactly the prefix before the first bad value was consumed
             let prefix: Vec<f64> = chunk.iter().take(bad_pos.unwrap_or(chunk.len())).cloned().collect();
